@@ -25,7 +25,7 @@ pub mod imp {
     use std::collections::BTreeMap;
     use std::sync::Arc;
 
-    pub const SHAPES: [&str; 3] = ["S1", "S2", "S3"];
+    pub const SHAPES: [&str; 4] = ["S1", "S2", "S3", "S4"];
 
     /// everything an operation instance can touch; every handle ever obtained is kept
     pub struct World {
@@ -59,7 +59,8 @@ pub mod imp {
     }
 
     /// S1: one file, flat.  S2: two files (P2 lives only in the second file).  S3: one file + packages nested 3 deep
-    /// with references in both directions.  Always: a second model with its own file.
+    /// with references in both directions.  S4: as S2, but the second file has an older version (only used for the
+    /// instances that name it).  Always: a second model with its own file.
     pub fn build(shape: &'static str) -> World {
         let base_lock = shim::next_lock_id();
         let model = AutosarModel::new();
@@ -111,8 +112,8 @@ pub mod imp {
                 h.insert(k, v);
             }
         }
-        if shape == "S2" {
-            let f2 = model.create_file("f2.arxml", V).unwrap();
+        if shape == "S2" || shape == "S4" {
+            let f2 = model.create_file("f2.arxml", if shape == "S4" { AutosarVersion::Autosar_4_3_0 } else { V }).unwrap();
             p2.add_to_file(&f2).unwrap();
             p2.remove_from_file(&files[0]).unwrap();
             files.push(f2);
@@ -418,17 +419,21 @@ pub mod imp {
         op!(v, "load_buffer", "dupname", "", |w| r(w.model.load_buffer(EXTRA_FILE.as_bytes(), "f1.arxml", true)));
         op!(v, "load_buffer", "broken", "", |w| r(w.model.load_buffer(b"<AUTOSAR>", "broken.arxml", true)));
         op!(v, "load_buffer", "into_empty", "", |w| r(AutosarModel::new().load_buffer(EXTRA_FILE.as_bytes(), "extra.arxml", true)));
-        op!(v, "serialize", "file", "", |w| match w.files[0].serialize() {
+        op!(v, "serialize", "file", "S1,S2,S3,S4", |w| match w.files[0].serialize() {
             Ok(s) => format!("ok:{:016x}", fnv(&s)),
             Err(e) => format!("err:{}", variant(&e)),
         });
-        op!(v, "serialize", "file2", "S2", |w| match w.files[1].serialize() {
+        op!(v, "serialize", "file2", "S2,S4", |w| match w.files[1].serialize() {
             Ok(s) => format!("ok:{:016x}", fnv(&s)),
             Err(e) => format!("err:{}", variant(&e)),
         });
         op!(v, "serialize", "element", "", |w| format!("ok:{:016x}", fnv(&w.e("p1").serialize())));
         op!(v, "serialize", "stale", "", |w| format!("ok:{:016x}", fnv(&w.e("stale").serialize())));
-        op!(v, "serialize_files", "model", "", |w| format!("ok:{}", w.model.serialize_files().len()));
+        op!(v, "serialize_files", "model", "S1,S2,S3,S4", |w| {
+            let mut f: Vec<(std::path::PathBuf, String)> = w.model.serialize_files().into_iter().collect();
+            f.sort();
+            format!("ok:{}:{:016x}", f.len(), fnv(&f.iter().map(|x| x.1.clone()).collect::<Vec<_>>().join("\n")))
+        });
         op!(v, "file_props", "get", "", |w| format!("ok:{:?}/{:?}/{:?}", w.files[0].filename(), w.files[0].version(), w.files[0].xml_standalone()));
         op!(v, "file_props", "model", "", |w| r(w.files[0].model()));
         op!(v, "file_props", "set_filename", "", |w| r(w.files[0].set_filename("renamed.arxml")));
@@ -461,7 +466,11 @@ pub mod imp {
     }
 
     pub fn applies(o: &Op, shape: &str) -> bool {
-        o.only.is_empty() || o.only.split(',').any(|s| s == shape)
+        if o.only.is_empty() {
+            shape != "S4"
+        } else {
+            o.only.split(',').any(|s| s == shape)
+        }
     }
 
     fn cls(c: shim::LockClass) -> &'static str {
